@@ -129,7 +129,7 @@ type styleSpec struct {
 	width   float64
 	cap     int // 0 butt 1 round 2 square
 	join    int
-	dash    int // 0 none, 1 [2 1], 2 [1 0 2 3], 3 [2 1] offset -1
+	dash    int // 0 none, 1 [2 1], 2 [1 0 2 3], 3 [2 1] offset -1, 4 [3 3] offset -1 (odd-length after canonicalisation), 5 [1 2 3] offset -2
 	evenOdd bool
 }
 
@@ -163,6 +163,8 @@ var styles = []styleSpec{
 	{name: "stroke blue dashes [2 1]", stroke: strokeBlue, width: 1, dash: 1},
 	{name: "stroke blue dashes [1 0 2 3]", stroke: strokeBlue, width: 1, dash: 2},
 	{name: "stroke blue dashes [2 1] offset -1", stroke: strokeBlue, width: 1, dash: 3},
+	{name: "stroke blue dashes [3 3] offset -1", stroke: strokeBlue, width: 1, dash: 4},
+	{name: "stroke blue dashes [1 2 3] offset -2", stroke: strokeBlue, width: 1, dash: 5},
 	{name: "stroke blue w2 dashes [2 1]", stroke: strokeBlue, width: 2, dash: 1},
 	{name: "stroke blue EvenOdd", stroke: strokeBlue, width: 1, evenOdd: true},
 	{name: "fill red + stroke blue", fill: fillRed, stroke: strokeBlue, width: 1},
@@ -230,6 +232,10 @@ func (s styleSpec) apply(ctx *canvas.Context) {
 		ctx.SetDashes(0, 1, 0, 2, 3)
 	case 3:
 		ctx.SetDashes(-1, 2, 1)
+	case 4:
+		ctx.SetDashes(-1, 3, 3)
+	case 5:
+		ctx.SetDashes(-2, 1, 2, 3)
 	}
 	if s.evenOdd {
 		ctx.SetFillRule(canvas.EvenOdd)
